@@ -28,6 +28,8 @@ enum SubAnswer {
 	Refuse,
 	MalformedId,
 	DuplicateSubId,
+	/// accepted with the id of a subscription that has ended (server close, lag) while the consumer still holds its stream
+	ReuseEndedId,
 }
 
 #[derive(Debug, Clone, PartialEq, Eq, Hash)]
@@ -215,6 +217,21 @@ async fn run_spec(spec: &Spec) -> Out {
 							}
 							SubAnswer::Refuse => err_response(&id, -32006, "refused", None),
 							SubAnswer::MalformedId => ok_response(&id, json!({"not": "a subscription id"})),
+							SubAnswer::ReuseEndedId => {
+								match (0..SLOTS).find(|s| !w.live[*s] && w.handles[*s].is_some()).and_then(|s| w.sub_ids[s].clone()) {
+									// (not while another live subscription carries it)
+									Some(old) if !(0..SLOTS).any(|s| w.live[s] && w.sub_ids[s].as_ref() == Some(&old)) => {
+										answered_with = old.clone();
+										out.history.push(format!("the server issues the id {old} of an ended subscription again"));
+										ok_response(&id, old)
+									}
+									_ => {
+										w.next_sub += 1;
+										answered_with = json!(w.next_sub * 1000 + 7);
+										ok_response(&id, answered_with.clone())
+									}
+								}
+							}
 							SubAnswer::DuplicateSubId => {
 								// the id of a subscription that is live right now, if any; else a fresh one (plain accept)
 								match (0..SLOTS).find(|s| w.live[*s]).and_then(|s| w.sub_ids[s].clone()) {
@@ -380,6 +397,12 @@ async fn run_spec(spec: &Spec) -> Out {
 		for i in 0..4 {
 			out.max_sizes[i] = out.max_sizes[i].max(sizes[i]);
 		}
+		// a subscription that the model holds live (accepted, not ended, stream held) must be in the client's table
+		let live_now = (0..SLOTS).filter(|s| w.live[*s] && w.handles[*s].is_some()).count();
+		if sizes[1] < live_now {
+			bad!(format!("live-subscription-forgotten/{}", leak_feature(&spec.steps[..=si])), "after step {si} ({step:?}) {live_now} subscription(s) are live but the client's table holds {}", sizes[1]);
+			break;
+		}
 		if w.model_idle() {
 			out.idle_checks += 1;
 			if sizes != [0, 0, 0, 0] {
@@ -526,6 +549,7 @@ fn leak_feature(steps: &[Step]) -> String {
 			Step::Subscribe(_, SubAnswer::Refuse) => "refused-subscribe",
 			Step::Subscribe(_, SubAnswer::MalformedId) => "malformed-subscribe-answer",
 			Step::Subscribe(_, SubAnswer::DuplicateSubId) => "duplicate-sub-id",
+			Step::Subscribe(_, SubAnswer::ReuseEndedId) => "sub-id-issued-again",
 			Step::Unsubscribe(_) => "unsubscribe",
 			Step::Drop(_) => "drop",
 			Step::ServerClose { .. } => "server-close",
@@ -550,7 +574,11 @@ fn gen_spec(seed: u64) -> Spec {
 			3..=6 => Step::Subscribe(r.usize(SLOTS), SubAnswer::Accept),
 			7 => Step::Subscribe(r.usize(SLOTS), SubAnswer::Refuse),
 			8 => Step::Subscribe(r.usize(SLOTS), SubAnswer::MalformedId),
-			9 => if r.bool() { Step::Subscribe(r.usize(SLOTS), SubAnswer::DuplicateSubId) } else { Step::SubscribeAbandoned },
+			9 => match r.below(4) {
+				0 => Step::Subscribe(r.usize(SLOTS), SubAnswer::DuplicateSubId),
+				1 | 2 => Step::Subscribe(r.usize(SLOTS), SubAnswer::ReuseEndedId),
+				_ => Step::SubscribeAbandoned,
+			},
 			10 | 11 => Step::Unsubscribe(r.usize(SLOTS)),
 			12 | 13 => Step::Drop(r.usize(SLOTS)),
 			14 | 15 => Step::ServerClose { slot: r.usize(SLOTS), in_array: r.bool() },
@@ -580,6 +608,18 @@ fn directed_specs(reps: usize) -> Vec<(Spec, String)> {
 		("subscribe-server-close", vec![Step::Subscribe(0, SubAnswer::Accept), Step::ServerClose { slot: 0, in_array: false }, Step::Drop(0)]),
 		("subscribe-server-close-in-array", vec![Step::Subscribe(0, SubAnswer::Accept), Step::ServerClose { slot: 0, in_array: true }, Step::Drop(0)]),
 		("subscribe-lag-close", vec![Step::Subscribe(0, SubAnswer::Accept), Step::LagClose(0), Step::Ack(0), Step::Drop(0)]),
+		(
+			"sub-id-issued-again",
+			vec![
+				Step::Subscribe(0, SubAnswer::Accept),
+				Step::ServerClose { slot: 0, in_array: false },
+				Step::Subscribe(1, SubAnswer::ReuseEndedId),
+				Step::Drop(0),
+				Step::Notify(1),
+				Step::Unsubscribe(1),
+				Step::Ack(0),
+			],
+		),
 		("duplicate-sub-id", vec![Step::Subscribe(0, SubAnswer::Accept), Step::Subscribe(1, SubAnswer::DuplicateSubId), Step::Unsubscribe(0), Step::Ack(0)]),
 		("handler-register-unregister", vec![Step::RegisterHandler(0), Step::RegisterHandler(1), Step::UnregisterHandler(0), Step::UnregisterHandler(1)]),
 	];
